@@ -478,9 +478,11 @@ def dec_response(ints):
 
 # --------------------------------------------------------------------------- implementation runner
 
-def make_resolver(log):
+def make_resolver(log, fields=None):
     def resolver(source, info, **args):
         fdef = info.parent_type.fields.get(info.field_name)
+        if fields is not None:
+            fields[tuple(info.path.as_list())] = (info.parent_type.name, info.field_name, info.return_type)
         cargs = tuple((k, canon_pyarg(v, fdef.args[k].type) if fdef and k in fdef.args else ("?", k))
                       for k, v in args.items())
         log.append((tuple(info.path.as_list()), info.field_name, cargs))
@@ -494,9 +496,9 @@ def make_resolver(log):
 def run_impl(schema, doc, data, variables, operation_name=None):
     """execute_sync over the data graph; canonical observables of the response."""
     from graphql import execute_sync
-    log = []
+    log, fields = [], {}
     res = execute_sync(schema, doc, root_value=data, variable_values=variables,
-                       operation_name=operation_name, field_resolver=make_resolver(log))
+                       operation_name=operation_name, field_resolver=make_resolver(log, fields))
     errs = res.errors or []
     if res.data is None and errs and all(e.path is None for e in errs):
         return {"kind": "request-error", "messages": [e.message for e in errs], "raw": None}
@@ -504,7 +506,7 @@ def run_impl(schema, doc, data, variables, operation_name=None):
         return {"kind": "pathless-error", "messages": [e.message for e in errs], "raw": res.data}
     return {"kind": "response", "data": canon_pyjson(res.data),
             "errors": sorted((tuple(e.path) for e in errs), key=repr),
-            "calls": log, "messages": [e.message for e in errs], "raw": res.data}
+            "calls": log, "messages": [e.message for e in errs], "raw": res.data, "fields": fields}
 
 
 # --------------------------------------------------------------------------- generation: schema
